@@ -17,6 +17,8 @@
      statusKnown the status clause applies (fault raised by user code or earlier)
      maxlen, declared, toolong, nread   request-size bookkeeping
      aborted     the server closed the response iterable early
+     mayEscape   a close listener of the scenario raises (the only legitimate escape)
+     wcloseExpected  wsgi_close is expected (no method_context_closed listener raised before it)
 
    History vocabulary:
      <<"app"|"meth"|"svc"|"svc2", event>>   listener call on that manager
@@ -116,7 +118,7 @@ CloseAfterBody(h, k) == (k.tr = "wsgi" /\ Has(h, "app", "method_context_closed")
      /\ (k.done => Has(h, "io", "iterclose") /\ c < Last(h, "io", "iterclose"))
 WsgiCloseOnce(h, k) == (k.tr = "wsgi" /\ k.rpc) =>
                          /\ Count(h, "wsgi", "wsgi_close") <= 1
-                         /\ (k.done => Count(h, "wsgi", "wsgi_close") = 1)
+                         /\ (k.done /\ k.wcloseExpected => Count(h, "wsgi", "wsgi_close") = 1)
 \* "at most max_content_length bytes are ever read from the input stream"
 ReadBound(h, k) == k.tr = "wsgi" => (k.nread <= k.maxlen /\ k.nread <= k.declared)
 \* "a request body longer than max_content_length is refused with the
@@ -144,4 +146,6 @@ FuzzOutcome(h, k) ==
        ELSE /\ Count(h, "fn", "call") <= 1
             /\ (k.tr = "wsgi" => k.status = 200)
 NoEscape(h) == \A i \in Idx(h) : h[i][1] # "escape"
+\* only a raising close listener may make an exception reach the WSGI server
+NoEscapeK(h, k) == k.mayEscape \/ NoEscape(h)
 =============================================================================
